@@ -105,7 +105,7 @@ def gen_plan(rng, index, tier):
         a = rng.choice(actors)
         pt = rng.choice(pts)
         uid += 1
-        op = rng.choice(["setp", "setp", "setp", "ndens", "temp", "dim", "height", "rotate", "std", "convert"])
+        op = rng.choice(["setp", "setp", "setp", "ndens", "temp", "dim", "height", "rotate", "std", "convert", "edge"])
         if rng.random() < 0.04:
             op = "scopeassign"
         elif a["order"] > 11.0 and pt[0] == "EveryNode" and rng.random() < 0.5:
@@ -415,11 +415,35 @@ def op_convert(d, st, actor):
         ch.restorePreviousGeometry(r)
         d.changer = None
         d.probes["geometry_restored"] += 1
+    elif getattr(d, "edge", None) is not None:
+        return  # with edge assemblies pending the conversion is C13's subject
     elif not r.core.isFullCore and str(r.core.geomType).startswith("hex"):
         ch = gc.ThirdCoreHexToFullCoreChanger(actor.o.cs)
         ch.convert(r)
         d.changer = ch
         d.probes["geometry_converted"] += 1
+    else:
+        return
+    d.dirty = True
+
+
+def op_edge(d, st, actor):
+    """Edge assemblies are added to a third core (what a finite-difference neutronics interface does
+    around its solve), or taken out again: snapshots written in between hold them."""
+    from armi.reactor.converters import geometryConverters as gc
+
+    r = actor.o.r
+    e = getattr(d, "edge", None)
+    if e is not None:
+        e.removeEdgeAssemblies(r.core)
+        d.edge = None
+        d.probes["edge_assemblies_removed"] += 1
+    elif getattr(d, "changer", None) is None and not r.core.isFullCore and str(r.core.geomType).startswith("hex"):
+        n0 = len(r.core)
+        e = gc.EdgeAssemblyChanger()
+        e.addEdgeAssemblies(r.core)
+        d.edge = e
+        d.probes["edge_assemblies_added" if len(r.core) > n0 else "edge_assemblies_none_to_add"] += 1
     else:
         return
     d.dirty = True
@@ -466,7 +490,7 @@ def op_rewrite(d, st, actor):
     d.rewritten.append(f"c{int(r.p.cycle):02d}n{int(r.p.timeNode):02d}")
 
 
-OPS = {"rewrite": op_rewrite, "scopeassign": op_scopeassign, "convert": op_convert, "setp": op_setp, "ndens": op_ndens, "temp": op_temp, "dim": op_dim, "height": op_height, "rotate": op_rotate, "std": op_std}
+OPS = {"rewrite": op_rewrite, "scopeassign": op_scopeassign, "convert": op_convert, "edge": op_edge, "setp": op_setp, "ndens": op_ndens, "temp": op_temp, "dim": op_dim, "height": op_height, "rotate": op_rotate, "std": op_std}
 
 
 def refresh_derived(d, actor):
